@@ -1,5 +1,6 @@
-"""Per-property definitions: which components tie the property's theorem to the code, through which
+"""Per-property definitions: which components tie the property's theorems to the code, through which
 projection they are compared, which extracted checker judges implementation outputs, budgets."""
+import itertools
 import json
 import os
 import subprocess
@@ -12,41 +13,142 @@ VERIF = os.path.dirname(HERE)
 ALLOWED_AXIOMS = set()   # every property theorem is expected to be closed under the global context
 
 TRUSTED_BASE = [
-    "Coq 8.16.1 kernel (coqc; coqchk re-check in the thorough tier); no native_compute; no axioms",
+    "Coq 8.16.1 kernel (coqc; coqchk re-check in the thorough tier); no native_compute; no axioms "
+    "(every property theorem: 'Closed under the global context')",
     "extraction to OCaml with ExtrOcamlBasic only (bool, option, unit, prod, list, sumbool, sumor); "
-    "nat/string/ascii stay extracted inductives; no Extract Constant; OCaml 4.13.1",
-    "hand-written Gallina model of the Python code; its faithfulness rests on the correspondence "
+    "nat/Z/string/ascii stay extracted inductives; no Extract Constant; OCaml 4.13.1",
+    "hand-written Gallina model of the Python code (coq/model); its faithfulness rests on the correspondence "
     "(differential) check run here against /repo's working tree",
     "glue: harness/*.py (generators, canonical encoders of implementation objects), ocaml/sx.ml, ocaml/driver.ml",
     "fastcore-1.7 compatibility shim harness/compat/fastcore_self.py (DESIGN.md 1.1)",
-    "CPython semantics of list/dict/set/sorted/str on 7-bit text; attrs-generated methods; networkx "
-    "(transliterated or abstracted as stated in DESIGN.md section 5)",
+    "CPython semantics of list/dict/set/sorted/str on 7-bit text; attrs-generated methods; re, csv, "
+    "string.Template, PyYAML, typer; networkx (transliterated or abstracted as stated in DESIGN.md section 5)",
 ]
 
 
-# ----------------------------------------------------------------------------- projections
-def strip_labels(out):
-    if len(out) < 2 or not isinstance(out[1], list):
-        return out
-    return [out[0], [[[u, sorted(e[0] for e in es)] for u, es in r] for r in out[1]]]
-
-
-def proj_c08(out):
-    if len(out) < 2 or not isinstance(out[1], list):
-        return out
-    return [out[0], len(out[1]), out[1][-1] if out[1] else []]
-
-
-PROJ = {"full": lambda o: o, "occ": strip_labels, "c08": proj_c08}
-
-SIM_Q = {"n": 3000}
-SIM_T = {"n": 150000}
+def S(comp, proj, checks, quick, thorough, params=None, explicit=None, exhaustive=False):
+    return {"component": comp, "proj": proj, "checks": checks, "quick": quick, "thorough": thorough,
+            "params": params or {}, "explicit": explicit, "exhaustive": exhaustive}
 
 
 def sim_stream(proj, chk, extra=None, nq=3000, nt=150000):
     p = {"kinds": ["loaded", "loaded", "parts"]}
     p.update(extra or {})
-    return {"component": "sim", "quick": nq, "thorough": nt, "params": p, "proj": proj, "checks": chk}
+    return S("sim", proj, chk, nq, nt, p)
+
+
+# ----------------------------------------------------------------------------- exhaustive scopes
+def icase_scope(tier):
+    alph = "aAbB1 "
+    n = 2 if tier == "quick" else 3
+    strs = [""]
+    for k in range(1, n + 1):
+        strs += ["".join(t) for t in itertools.product(alph, repeat=k)]
+    return [{"a": a, "b": b} for a in strs for b in strs]
+
+
+def bag_scope(tier):
+    vals = [[0, "U"], [0, "D"], [1, "U"]]
+    maxlen = 1 if tier == "quick" else 2
+    lists = [[]]
+    for k in range(1, maxlen + 1):
+        lists += [list(map(list, t)) for t in itertools.product(vals, repeat=k)]
+    keys = ["u0", "u1"]
+    recs = []
+    for l0 in lists:
+        for l1 in lists:
+            recs.append([["u0", l0], ["u1", l1]])
+            recs.append([["u1", l1], ["u0", l0]])
+        recs.append([["u0", l0]])
+    recs.append([])
+    return [{"a": a, "b": b} for a in recs for b in recs]
+
+
+def regq_scope(tier):
+    """all request sequences up to a length over a few owners (owner symmetry reduced: owners appear in
+    order of first use), each with ALL permitted serve/remove interleavings explored by DFS against a
+    pure reference of the protocol; every maximal path becomes one case (queries at every state)"""
+    maxlen, nown = (4, 3) if tier == "quick" else (6, 3)
+    cases = []
+
+    def seqs(k, used):
+        if k == 0:
+            yield []
+            return
+        for t in "RW":
+            for o in range(min(used + 1, nown)):
+                for rest in seqs(k - 1, max(used, o + 1)):
+                    yield [[t, o]] + rest
+
+    def paths(groups, owners):
+        # groups: list of [type, set]; returns list of removal sequences (maximal)
+        if not groups:
+            return [[]]
+        front = groups[0]
+        serv = sorted(front[1])
+        out = []
+        for o in serv:
+            g2 = [[front[0], set(front[1]) - {o}]] + [[t, set(s)] for t, s in groups[1:]]
+            if not g2[0][1]:
+                g2 = g2[1:]
+            for p in paths(g2, owners):
+                out.append([o] + p)
+        return out
+
+    for n in range(0, maxlen + 1):
+        for rs in seqs(n, 0):
+            groups = []
+            for t, o in rs:
+                if t == "R" and groups and groups[-1][0] == "R":
+                    groups[-1][1].add(o)
+                else:
+                    groups.append([t, {o}])
+            owners = list(range(nown))
+            for path in paths(groups, owners):
+                ops = []
+                for o in path + [None]:
+                    for t in "RW":
+                        for w in owners:
+                            ops.append(["can", t, w])
+                    if o is not None:
+                        ops.append(["deq", o])
+                ops.append(["deq", owners[-1]])          # one more removal: must fail (or be permitted) alike
+                cases.append({"reqs": rs, "ops": ops, "owners": owners})
+    return cases
+
+
+def mkproc_scope(tier):
+    """all DAGs up to n units (as edge subsets of the upper triangle of every vertex order is covered by
+    relabelling) x several supply orders"""
+    import random
+    n_max = 3 if tier == "quick" else 4
+    cases = []
+    rng = random.Random(12345)
+    for n in range(1, n_max + 1):
+        pairs = [(a, b) for a in range(n) for b in range(a + 1, n)]
+        for mask in range(1 << len(pairs)):
+            es = [pairs[k] for k in range(len(pairs)) if mask >> k & 1]
+            names = [f"u{i}" for i in range(n)]
+            preds = {i: [a for a, b in es if b == i] for i in range(n)}
+            succs = {i: [b for a, b in es if a == i] for i in range(n)}
+            for perm_k in range(2 if tier == "quick" else 4):
+                parts = {"ins": [], "outs": [], "inouts": [], "ints": []}
+                for i in range(n):
+                    u = [names[i], 1, ["ALU"], False, False, []]
+                    pl = [names[p] for p in preds[i]]
+                    rng.shuffle(pl)
+                    if preds[i] and succs[i]:
+                        parts["ints"].append([u, pl])
+                    elif preds[i]:
+                        parts["outs"].append([u, pl])
+                    elif succs[i]:
+                        parts["ins"].append(u)
+                    else:
+                        parts["inouts"].append(u)
+                for k in parts:
+                    rng.shuffle(parts[k])
+                cases.append({"parts": parts})
+    return cases
 
 
 PROPS = {
@@ -58,12 +160,37 @@ PROPS = {
     "C06": {"streams": [sim_stream("occ", ["C06"], {"wmax": 4})]},
     "C07": {"streams": [sim_stream("full", ["C07"], {"nmax": 7})]},
     "C08": {"streams": [sim_stream("c08", ["C08"], {"bad": 0.3})]},
+    "C09": {"streams": [S("loader", "canon", ["C09"], 3000, 100000, {"valid": 0.9, "defect": 0.1, "dead": 0.2})]},
+    "C10": {"streams": [S("loader", "canon", ["C10"], 3000, 100000, {"valid": 0.9, "defect": 0.05, "dead": 0.45})]},
+    "C11": {"streams": [S("loader", "err", ["C11"], 4000, 120000, {"valid": 0.6, "defect": 0.5, "dead": 0.1})]},
+    "C12": {"streams": [S("mkproc", "all", ["C12"], 0, 0, explicit=mkproc_scope, exhaustive=True),
+                        S("mkproc", "all", ["C12"], 2000, 60000, {"nmax": 8}),
+                        S("loader", "exact", ["C12"], 2000, 60000, {"valid": 0.9, "defect": 0.05, "dead": 0.2})]},
+    "C13": {"streams": [S("recase", "all", [], 2500, 80000)]},
+    "C14": {"streams": [S("parse", "all", ["C14", "C14x"], 4000, 150000)]},
+    "C15": {"streams": [S("isa", "all", ["C15"], 3000, 100000), S("abilities", "all", ["C15"], 1000, 30000)]},
+    "C16": {"streams": [S("pipeline", "all", ["C16", "TC01", "TC02", "TC03", "TC04", "TC05", "TC06", "TC07", "TC08"],
+                          160, 1500)]},
+    "C17": {"streams": [S("bag", "all", [], 0, 0, explicit=bag_scope, exhaustive=True),
+                        S("bag", "all", [], 3000, 100000)]},
+    "C18": {"streams": [S("icase", "all", ["C18"], 0, 0, explicit=icase_scope, exhaustive=True),
+                        S("icase", "all", ["C18"], 3000, 100000)]},
+    "C19": {"streams": [S("regq", "all", ["C19"], 0, 0, explicit=regq_scope, exhaustive=True),
+                        S("regq", "all", ["C19"], 2000, 60000)]},
 }
 
 
 # ----------------------------------------------------------------------------- running
+def _agree(r, proj):
+    a = r["agree"]
+    if isinstance(a, dict):
+        if proj == "all":
+            return all(a.values())
+        return a[proj]
+    return bool(a)
+
+
 def _judge_stream(stream, reps, failures, cov, stats):
-    proj = PROJ[stream["proj"]]
     for r in reps:
         if "error" in r:
             failures.append({"kind": "harness", "component": stream["component"], "case": r.get("case"),
@@ -78,7 +205,9 @@ def _judge_stream(stream, reps, failures, cov, stats):
         if bad_chk:
             cov["checker_failures"] = cov.get("checker_failures", 0) + 1
             failures.append({"kind": "checker", "component": stream["component"], "case": r["case"],
-                             "impl": r.get("impl"), "detail": f"checker {bad_chk} false on the implementation's output",
+                             "impl": r.get("impl"),
+                             "detail": f"checker {bad_chk} false on the implementation's output: "
+                                       + "; ".join(str(r["checks"][k][1]) for k in bad_chk),
                              "checks": r["checks"]})
             continue
         if r.get("meta_fail"):
@@ -86,15 +215,14 @@ def _judge_stream(stream, reps, failures, cov, stats):
             failures.append({"kind": "metamorphic", "component": stream["component"], "case": r["case"],
                              "impl": r.get("impl"), "detail": r["meta_fail"]})
             continue
-        if not r["agree"]:
-            d = r["diff"]
-            if proj(d["model"]) != proj(d["impl"]):
-                cov["disagreements"] = cov.get("disagreements", 0) + 1
-                failures.append({"kind": "correspondence", "component": stream["component"], "case": r["case"],
-                                 "impl": r.get("impl"), "model": d["model"],
-                                 "detail": f"model and implementation differ through projection {stream['proj']}"})
-            else:
-                cov["differences_outside_projection"] = cov.get("differences_outside_projection", 0) + 1
+        if not _agree(r, stream["proj"]):
+            d = r.get("diff") or {}
+            cov["disagreements"] = cov.get("disagreements", 0) + 1
+            failures.append({"kind": "correspondence", "component": stream["component"], "case": r["case"],
+                             "impl": d.get("impl", r.get("impl")), "model": d.get("model"),
+                             "detail": f"model and implementation differ through projection {stream['proj']}"})
+        elif isinstance(r["agree"], dict) and not all(r["agree"].values()):
+            cov["differences_outside_projection"] = cov.get("differences_outside_projection", 0) + 1
 
 
 def run_property(pid, tier, seed, escalate=False, replay=None):
@@ -108,24 +236,28 @@ def run_property(pid, tier, seed, escalate=False, replay=None):
         reps = engine.run_cases(comp, seed, 1, stream["params"], explicit=[replay["case"]])
         _judge_stream(stream, reps, failures, cov, stats)
         cov["evaluations"] = 1
+        cov["distinct_nontrivial"] = 0
+        cov["samples"] = [replay["case"]]
         return {"failures": failures, "coverage": cov}
     for stream in prop["streams"]:
-        n = stream[tier]
-        if escalate:
-            n *= 3
         comp = stream["component"]
         # corpus (minimized past disagreements) first
         corpus = load_corpus(comp)
         if corpus:
             reps = engine.run_cases(comp, seed, len(corpus), stream["params"], explicit=corpus)
             _judge_stream(stream, reps, failures, cov, stats)
-        reps = engine.run_cases(comp, seed, n, stream["params"])
         before = len(failures)
+        if stream["explicit"] is not None:
+            cases = stream["explicit"](tier)
+            reps = engine.run_cases(comp, seed, len(cases), stream["params"], explicit=cases)
+        else:
+            n = stream[tier] * (3 if escalate else 1)
+            reps = engine.run_cases(comp, seed, n, stream["params"])
         _judge_stream(stream, reps, failures, cov, stats)
         new = failures[before:]
         # violation search: correspondence broke but no checker failed -> look further for a failing input
-        if new and not any(f["kind"] in ("checker", "metamorphic") for f in new):
-            extra = engine.run_cases(comp, seed + 7919, 4 * n, stream["params"])
+        if new and stream["explicit"] is None and not any(f["kind"] in ("checker", "metamorphic") for f in new):
+            extra = engine.run_cases(comp, seed + 7919, 4 * stream[tier], stream["params"])
             tmp = []
             _judge_stream(stream, extra, tmp, cov, stats)
             failures.extend(f for f in tmp if f["kind"] in ("checker", "metamorphic"))
@@ -134,10 +266,10 @@ def run_property(pid, tier, seed, escalate=False, replay=None):
                                "checkers": stream["checks"], "exhaustive": bool(stream.get("exhaustive"))})
     cov["evaluations"] = stats.counters["evaluations"]
     cov["distinct_nontrivial"] = len(stats.distinct)
-    cov["rule"] = prop.get("rule", "cases are generated from VERIF_SEED by harness/gen.py; a case counts as "
-                           "non-trivial when the processor is in the property's domain (wf_procb), the program "
-                           "has >= 2 instructions and the diagram >= 3 cycles; distinct = distinct canonical "
-                           "(processor, program) digests")
+    cov["rule"] = prop.get("rule", "cases are generated from VERIF_SEED by harness/gen.py (or enumerated for the streams "
+                           "marked exhaustive); each component states in harness/components.py what makes a case "
+                           "non-trivial (e.g. sim: processor inside wf_procb, >= 2 instructions, >= 3 cycles); "
+                           "distinct = distinct digests of the canonical input")
     cov["samples"] = stats.samples or [{"note": "no non-trivial sample"}]
     cov["distribution"] = {k[4:]: v for k, v in sorted(stats.counters.items()) if k.startswith("tag:")}
     cov["exhaustive"] = all(s.get("exhaustive") for s in prop["streams"])
@@ -174,10 +306,14 @@ def known_demo(k):
 
 
 def shrink(pid, rep):
-    return rep
+    try:
+        import shrinker
+        return shrinker.shrink(pid, rep)
+    except Exception:  # noqa: BLE001  shrinking is best effort
+        return rep
 
 
 def coqchk(pid):
-    p = subprocess.run(f"timeout 1200 coqchk -silent -o -Q model PS -Q spec PS -Q proofs PS -Q props PS PS.{pid} 2>&1 | tail -30",
+    p = subprocess.run(f"timeout 1500 coqchk -silent -o -Q model PS -Q spec PS -Q proofs PS -Q props PS PS.{pid} 2>&1 | tail -30",
                        shell=True, capture_output=True, text=True, cwd=os.path.join(VERIF, "coq"))
     return p.stdout[-3000:]
